@@ -60,7 +60,8 @@ theorem stepEff_full (B : KBlocks K V) (lt : K → K → Bool) (c : Config K V) 
         rw [hole_of_stepper hS ht hen (by rw [hp]; exact hdel), hp, parkHole_want]
       have hpre : Pre c.P (kontHole k) ({ stepSt c t th with evs := [] } : St K V) :=
         ⟨by rw [← hhole]; exact hS.tree, hS.order, hS.pad⟩
-      exact (B.kd lt c.P t { stepSt c t th with evs := [] } k (stepHeld th) hdel hk.kp hpre hko hkpre hcov
+      have h4 : 4 ≤ c.tree.order := hinv.four htm (by rw [hp]; exact hdel)
+      exact (B.kd lt c.P t { stepSt c t th with evs := [] } k (stepHeld th) hdel h4 hk.kp hpre hko hkpre hcov
         hk.kinv.ord hkpos).1.eff
 
 /-- **a scheduler step keeps the linearizability invariant** (with Delete) -/
@@ -75,6 +76,7 @@ theorem linearizable_full (B : KBlocks K V) (lt : K → K → Bool) (P : Params 
     (progs : List (List (COp K V)))
     (hkp : KParams lt P) (ht : TreeOk none tree) (hord : OrdTree lt tree) (hsep : SepTree lt tree)
     (ho : tree.order = P.order) (hp : PadOk P) (hd : Disciplined progs)
+    (hdel : 4 ≤ tree.order ∨ NoDelete progs)
     (c : Config K V) (hr : Reachable (Config.init P tree progs) c) :
     Lin.Linearizable lt tree.abs (history c) := by
   have key : ∃ h, LinInv lt tree.abs c h := by
@@ -83,7 +85,7 @@ theorem linearizable_full (B : KBlocks K V) (lt : K → K → Bool) (P : Params 
     | @step c1 c2 t hr1 hs ih =>
       obtain ⟨h, hl⟩ := ih
       exact step_lininv_full B lt tree.abs c1 c2 t hs
-        (reachable_kfinv B lt P tree progs hkp ht hord hsep ho hp hd c1 hr1) h hl
+        (reachable_kfinv B lt P tree progs hkp ht hord hsep ho hp hd hdel c1 hr1) h hl
   obtain ⟨h, hl⟩ := key
   rw [← hl.vis]
   exact hl.pts.linearizable
